@@ -239,6 +239,76 @@ theorem c02_increment_window {s : Src.adsr.Adsr} (h : Reach s) :
       C02.Win (C02.ticksOf (Tie.Adsr.abs s)) (C02.incOf (Tie.Adsr.abs s)) :=
   C02.win_of_ok _ (reach_inv h).2.ok
 
+/-! ### C02 timing, for whole phases on the source -/
+
+/-- a parameter change as the source's `set_input` takes it -/
+def srcInput : AdsrInput → Src.adsr.Input
+  | .attack t => .Attack ⟨t⟩ | .decay t => .Decay ⟨t⟩ | .sustain l => .Sustain ⟨l⟩ | .release t => .Release ⟨t⟩
+
+theorem absInput_srcInput (i : AdsrInput) : absInput (srcInput i) = i := by cases i <;> rfl
+
+/-- ticks and parameter changes inside one phase, run on the translated source; collects the increment each tick used -/
+def runPhaseSrc (s : Src.adsr.Adsr) : List C02.Step → Option (Src.adsr.Adsr × List Nat)
+  | [] => some (s, [])
+  | .set i :: ss => match Src.adsr.Adsr.set_input s (srcInput i) with
+    | none => none
+    | some s' => runPhaseSrc s' ss
+  | .tick :: ss => match Src.adsr.Adsr.tick s with
+    | none => none
+    | some s' => match runPhaseSrc s' ss with
+      | none => none
+      | some (s'', incs) => some (s'', C02.incOf (Tie.Adsr.abs s) :: incs)
+
+theorem runPhase_sim (ss : List C02.Step) (s : Src.adsr.Adsr) (hwf : WF s) :
+    (runPhaseSrc s ss).map (fun r => (Tie.Adsr.abs r.1, r.2)) = C02.runPhase (Tie.Adsr.abs s) ss := by
+  induction ss generalizing s with
+  | nil => rfl
+  | cons st ss ih =>
+    cases st with
+    | set i =>
+      obtain ⟨s', e, w', a'⟩ := set_input_tie s hwf (srcInput i)
+      rw [absInput_srcInput] at a'
+      simp only [runPhaseSrc, e, C02.runPhase]
+      rw [← a']; exact ih s' w'
+    | tick =>
+      obtain ⟨hmap, hw⟩ := tick_tie s hwf
+      cases ht : Src.adsr.Adsr.tick s with
+      | none =>
+        rw [ht] at hmap
+        simp only [Option.map_none] at hmap
+        simp only [runPhaseSrc, ht, C02.runPhase, ← hmap, Option.map_none]
+      | some s1 =>
+        rw [ht] at hmap
+        simp only [Option.map_some] at hmap
+        have := ih s1 (hw s1 ht)
+        simp only [runPhaseSrc, ht, C02.runPhase, ← hmap, ← this]
+        cases runPhaseSrc s1 ss with
+        | none => rfl
+        | some r => rfl
+
+/-- **never early, on the source**: a timed phase started at counter 0 that ends on the next tick has lasted its configured
+duration up to the binary32 rounding of the increment -/
+theorem c02_never_early {s s' : Src.adsr.Adsr} (h : Reach s) (ss : List C02.Step) (incs : List ℕ)
+    (hw : ∀ st ∈ ss, C02.stepWf st) (hstart : s.phase_accumulator.accumulator = 0)
+    (hrun : runPhaseSrc s ss = some (s', incs))
+    (hend : 2 ^ 24 ≤ s.phase_accumulator.accumulator + incs.sum + C02.incOf (Tie.Adsr.abs s')) :
+    1 ≤ (1 + 2 ^ (-22:ℤ)) * (C02.invSum (C02.durs (Tie.Adsr.abs s) ss) + 1 / C02.ticksOf (Tie.Adsr.abs s')) := by
+  obtain ⟨hwf, hinv⟩ := reach_inv h
+  have hsim := runPhase_sim ss s hwf
+  rw [hrun] at hsim
+  exact C02.never_early ss _ _ incs hinv.ok hw hstart hsim.symm hend
+
+/-- **not late, on the source**: while the phase has not ended after `k` ticks, the ticks spent exceed the configured duration by
+no more than the resolution of the 24-bit counter and the rounding of the increment -/
+theorem c02_not_late {s s' : Src.adsr.Adsr} (h : Reach s) (ss : List C02.Step) (incs : List ℕ)
+    (hw : ∀ st ∈ ss, C02.stepWf st) (hrun : runPhaseSrc s ss = some (s', incs))
+    (hsum : s.phase_accumulator.accumulator + incs.sum < 2 ^ 24) :
+    (1 - 2 ^ (-23:ℤ)) * C02.invSum (C02.durs (Tie.Adsr.abs s) ss) < 1 + (incs.length : ℚ) / 16777216 := by
+  obtain ⟨hwf, hinv⟩ := reach_inv h
+  have hsim := runPhase_sim ss s hwf
+  rw [hrun] at hsim
+  exact C02.not_late ss _ _ incs hinv.ok hw hsim.symm hsum
+
 /-! ## C03 — continuity -/
 
 /-- two consecutive ticks inside one timed phase -/
